@@ -115,3 +115,29 @@ def run_cli(path, extra):
     cli.check_arguments(args, parser)
     cli.run(args, output_file=out)
     return out.getvalue()
+
+
+# ---- shipped example / test kernels (marked sections), used by the *_examples cells -----------------
+
+EXAMPLES = [
+    ("examples/sum_reduction/sum_reduction.s.zen.gcc.s", "zen1"), ("examples/sum_reduction/sum_reduction.s.tx2.gcc.s", "tx2"),
+    ("tests/test_files/kernel_x86_memdep.s", "zen2"), ("tests/test_files/kernel_aarch64_memdep.s", "tx2"),
+    ("examples/update/update.s.zen.gcc.s", "zen1"), ("examples/update/update.s.tx2.gcc.s", "tx2"),
+    ("examples/triad/triad.s.zen.gcc.s", "zen1"), ("examples/gs/gs.s.tx2.clang.s", "tx2"), ("examples/gs/gs.s.tx2.gcc.s", "tx2"),
+    ("tests/test_files/kernel_x86.s", "zen2"), ("tests/test_files/kernel_aarch64.s", "tx2"), ("examples/copy/copy.s.zen.gcc.s", "zen1"),
+    ("examples/daxpy/daxpy.s.zen.gcc.s", "zen1"), ("examples/j2d/j2d.s.zen.gcc.s", "zen1"), ("examples/striad/striad.s.zen.gcc.s", "zen1"),
+    ("examples/add/add.s.tx2.gcc.s", "tx2"),
+]
+_KLINES = {}
+
+
+def example_lines(i):
+    """text lines of the marked section of example i (parsed and reduced by the real code)"""
+    if i not in _KLINES:
+        rel, arch = EXAMPLES[i]
+        root = os.path.dirname(os.path.dirname(os.path.abspath(cli.__file__)))
+        m, _ = model(arch)
+        isa = m.get_ISA()
+        parsed = parser_for(isa).parse_file(open(os.path.join(root, rel)).read())
+        _KLINES[i] = [l.line for l in reduce_to_section(parsed, isa)]
+    return _KLINES[i]
